@@ -1,11 +1,14 @@
+\* static copy of the generated quick config "same_key_full_mask" (checks/c12.py generates gen_*.cfg): tlc -config MC_quick.cfg MCRecency.tla
 SPECIFICATION Spec
 CONSTANTS
  Kinds = {"c","g"}
- Keys = {1,2}
+ Keys = {1}
  KeyByKind = FALSE
- Masks <- AllMasks
- Timeouts <- TO_n23
- MaxSteps = 6
+ Masks <- FullMask
+ Timeouts <- TO_23
  MaxDelta = 1
-INVARIANTS TypeOK ObserveExact NeverDropUncovered DropRemoves KeepKeeps FreshRestart OwnIsFirstObs InterferenceIsCrossKind UncoveredUntracked
+ MaxSteps = 8
+ MaxNow = 100000000
+ MaxGen = 100000000
+INVARIANTS TypeOK ObserveExact NeverDropUncovered DropRemoves KeepKeeps FreshRestart InterferenceIsCrossKind UncoveredUntracked
 CHECK_DEADLOCK FALSE
